@@ -41,13 +41,20 @@ def function_classes():
             self.names = names
             self.eval_points = {}
             self.eval_calls = 0
+            self.since_mark = None
 
         def output_length(self):
             return len(self.components)
 
+        def mark(self):
+            """start counting the distinct points that reach eval() from now on"""
+            self.since_mark = set()
+
         def eval(self, coordinates):
             p = tuple(coordinates) if type(coordinates) is not tuple else coordinates
             self.eval_calls += 1
+            if self.since_mark is not None:
+                self.since_mark.add(tuple(float(c) for c in p))
             v = self.eval_points.get(p)
             if v is None:
                 p = tuple(float(c) for c in p)
@@ -217,6 +224,8 @@ def observed(base):
                 o.after_refine(self)
 
         def evaluate_operation(self):
+            if self.vobs is not None:
+                self.vobs.before_evaluate(self)
             r = super().evaluate_operation()
             if self.vobs is not None:
                 self.vobs.after_evaluate(self, r)
@@ -274,8 +283,15 @@ class Observer:
 
     def deepest(self, c):
         try:
-            return max(max(o.levels) for k in range(c.dim)
-                       for o in c.refinement.get_refinement_container_for_dim(k).get_objects())
+            best = 0
+            for k in range(c.dim):
+                w = float(c.b[k]) - float(c.a[k])
+                for o in c.refinement.get_refinement_container_for_dim(k).get_objects():
+                    best = max(best, max(o.levels))
+                    g = w / (float(o.end) - float(o.start))
+                    if math.isfinite(g) and g > 0:
+                        best = max(best, int(math.log2(g)))
+            return best
         except Exception:
             return 0
 
@@ -285,6 +301,9 @@ class Observer:
             self.lmax_raises += 1
         if self.err is not None:
             self.err.step = self.steps
+
+    def before_evaluate(self, c):
+        pass
 
     def after_evaluate(self, c, r):
         self.evals += 1
